@@ -186,6 +186,26 @@ def run(ctx: Ctx, env):
                   "model already joined on the query makes the needed join disappear", m.loc(fn),
                   "base query joined on Ticket.owner, filter project/owner/name eq 'Core'")
     ctx.floor("paths through the join loop", n_loop, 2)
+    # what the loop itself records as "already joined" must be the relationship's full identity as well
+    for n in ast.walk(fn):
+        if isinstance(n, ast.For) and isinstance(n.target, ast.Name) and "join_relationships" in ast.unparse(n.iter):
+            var = n.target.id
+            for x in ast.walk(n):
+                if isinstance(x, ast.Call) and isinstance(x.func, ast.Attribute) and x.func.attr in ("append", "add", "insert", "extend", "update") and x.args:
+                    recv = ast.unparse(x.func.value)
+                    # is the receiver the collection the skip test consults?
+                    consulted = any(isinstance(c, ast.Compare) and any(isinstance(o, (ast.In, ast.NotIn)) for o in c.ops) and
+                                    any(ast.unparse(cm) == recv for cm in c.comparators) for c in ast.walk(n)) or \
+                        any(isinstance(c, ast.Call) and isinstance(c.func, ast.Attribute) and c.func.attr in ("isdisjoint", "__contains__", "issuperset")
+                            and ast.unparse(c.func.value) == recv for c in ast.walk(n))
+                    if not consulted:
+                        continue
+                    arg = x.args[-1]
+                    names_full = any(isinstance(y, ast.Name) and y.id == var and not any(isinstance(z, ast.Attribute) and z.value is y for z in ast.walk(arg))
+                                     for y in ast.walk(arg))
+                    ctx.check(names_full, "R3.join-skip-identifies-the-relationship", "sqlalchemy.apply_odata_query|recorded-identity",
+                              f"the loop records `{ast.unparse(arg)}` as already joined: an abridged identity (the bare key) makes a later, different "
+                              "relationship of the same name look joined", m.loc(x), "parent/parent/name eq 'D' (File.parent -> Folder, Folder.parent -> Drive)")
     helper = m.functions.get("_get_joined_attrs") if hasattr(m, "functions") else None
     if helper is not None:
         interp = env.interp()
@@ -258,6 +278,24 @@ def run(ctx: Ctx, env):
                     if isinstance(root, ast.Name) and str(repo.resolve_name(mod, root.id) or "").startswith("sqlalchemy"):
                         ctx.fail("R4.no-global-mutation", f"{mname}|{ast.unparse(n.func)[:50]}", f"module-level `{ast.unparse(n)[:80]}` modifies SQLAlchemy globals",
                                  mod.loc(n))
+    for mname, mod in repo.modules.items():
+        if not mname.startswith("odata_query.sqlalchemy"):
+            continue
+        for n in ast.walk(mod.tree):
+            if isinstance(n, ast.Call) and str(repo.resolve_expr(mod, n.func) or "").endswith("functions.register_function"):
+                pk = None
+                if len(n.args) >= 3:
+                    pk = n.args[2]
+                for k in n.keywords:
+                    if k.arg == "package":
+                        pk = k.value
+                try:
+                    pv = repo.fold(mod, pk) if pk is not None else reg_default
+                except Exception:
+                    pv = None
+                ctx.check(isinstance(pv, str) and pv != reg_default, "R4.function-registry-isolated", f"register_function|{ast.unparse(n.args[0]) if n.args else '?'}",
+                          f"`{ast.unparse(n)[:80]}` registers into package {pv!r}: SQLAlchemy's default registry is shared with the host application, whose "
+                          "sqlalchemy.func.<name> now resolves to the back end's class", mod.loc(n), "host calls sqlalchemy.func.ceiling(x) after importing odata_query.sqlalchemy")
     if not any(o.rule == "R4.no-global-mutation" and not o.ok for o in ctx.obligations):
         ctx.ok("R4.no-global-mutation", "odata_query.sqlalchemy", "no module-level write into sqlalchemy's namespace")
     ctx.assume("row-level equality with the base query, SQLAlchemy's de-duplication of repeated joins and legacy Query internals are not decided")
